@@ -106,7 +106,7 @@ def check_filter(ctx, kp, d, agrid, E, inc, exc, k, case):
     return False
 
 
-def one(ctx: Ctx, cs, pname=None, n_pairs=300, n_big=0, all_pairs=False, **over):
+def one(ctx: Ctx, cs, pname=None, n_pairs=300, n_big=0, all_pairs=False, derive=None, **over):
     import kernpy as kp
     doc, pname = make_doc(cs, pname, **over)
     x = doc.text(0)
@@ -116,6 +116,12 @@ def one(ctx: Ctx, cs, pname=None, n_pairs=300, n_big=0, all_pairs=False, **over)
     if exc is not None or e:
         ctx.mon('precondition_failed')
         return
+    if derive:
+        # a Document obtained through the API (result of a transposition / concat / clone): the filter acts on it as on any other
+        from . import measures_common as MC
+        d = MC.derive_document(ctx, d, doc, x, cs, derive)
+        if d is None:
+            return
     E, err = kpx.dumps(d, encoding=kpx.Enc.eKern)
     if err is not None:
         ctx.mon('precondition_failed')
@@ -126,7 +132,7 @@ def one(ctx: Ctx, cs, pname=None, n_pairs=300, n_big=0, all_pairs=False, **over)
         return
     ctx.cls(*sorted(doc.tags))
     ctx.mon('cells_annotated', sum(len(r) for r in agrid))
-    case = {'case_seed': cs, 'profile': pname, 'over': over, 'text': x}
+    case = {'case_seed': cs, 'profile': pname, 'over': over, 'text': x, 'derive': derive}
     rng = random.Random(cs ^ 0x5A5A)
     k = 0
     nontriv = 0
@@ -175,9 +181,13 @@ def run(ctx: Ctx):
     if ctx.tier == 'quick':
         for cs in cases(ctx, 'c05', 22):
             one(ctx, cs, n_pairs=300)
+        for k_, cs in enumerate(cases(ctx, 'c05-derived', 6)):
+            one(ctx, cs, n_pairs=200, derive=['transposed', 'transposed', 'concat'][k_ % 3])
     else:
         for cs in cases(ctx, 'c05', 40):
             one(ctx, cs, all_pairs=True, n_big=200)
+        for k_, cs in enumerate(cases(ctx, 'c05-derived', 6)):
+            one(ctx, cs, n_pairs=600, n_big=100, derive=['transposed', 'transposed', 'concat'][k_ % 3])
     ctx.extra['exporter_recorder'] = dict(_rec)
     ctx.floors = {'filters': ('filtered_exports', 5000), 'identity': ('identity_cases', 40)}
     if _rec.get('placeholders', 0) == 0:
@@ -191,6 +201,9 @@ def replay(ctx, w):
     doc, pname = make_doc(case['case_seed'], case.get('profile'), **case.get('over', {}))
     x = doc.text(0)
     d, e, exc = kpx.loads(x)
+    if case.get('derive'):
+        from . import measures_common as MC
+        d = MC.derive_document(ctx, d, doc, x, case['case_seed'], case['derive'])
     E, _ = kpx.dumps(d, encoding=kpx.Enc.eKern)
     agrid = GM.annotate(doc, d, E)
     inc = tuple(case['include']) if case.get('include') is not None else None
